@@ -19,7 +19,9 @@ Rec4 == [V : {<<>>, ver1}, D : {<<>>, dep1}, A : {<<>>, amd64, linuxany}, As : {
          H : {<<>>, <<h1>>, <<h1, h2>>}, RV : {<<49, 46, 48>>}]
 RT == {[k |-> "rt", type |-> "P1", value |-> v] : v \in Rec1} \cup {[k |-> "rt", type |-> "P2", value |-> v] : v \in Rec2}
       \cup {[k |-> "rt", type |-> "P3", value |-> v] : v \in Rec3} \cup {[k |-> "rt", type |-> "P4", value |-> v] : v \in Rec4}
-Desc == {[k |-> "desc", type |-> t] : t \in {"P1", "P2", "P3", "P4", "P5"}}
+Rec6 == [A : {<<>>, x}, Z : {<<122>>, <<122, 122>>}]        \* (a struct whose fields are all empty marshals to no paragraph at all)
+RT6 == {[k |-> "rt", type |-> "P6", value |-> v] : v \in Rec6}
+Desc == {[k |-> "desc", type |-> t] : t \in {"P1", "P2", "P3", "P4", "P5", "P6"}}
 
 \* pass-through: known fields Name, Count, Tags and unknown fields X-A (single line), X-B (multi-line), X-C at every interleaving
 kName == <<78, 97, 109, 101, 58, 32, 110>>                  \* "Name: n"
@@ -55,5 +57,5 @@ RT2 == {[k |-> "rt2", type |-> "P1", first |-> Full1, second |-> v] : v \in Rec1
        \cup {[k |-> "rt2", type |-> "P2", first |-> Full2, second |-> v] : v \in Rec2}
        \cup {[k |-> "rt2", type |-> "P3", first |-> Full3, second |-> v] : v \in Rec3}
        \cup {[k |-> "rt2", type |-> "P4", first |-> Full4, second |-> v] : v \in Rec4}
-ASSUME Emit(SetToSeq(Desc) \o SetToSeq(RT \cup Pass \cup Missing) \o SetToSeq(RT2))
+ASSUME Emit(SetToSeq(Desc) \o SetToSeq(RT \cup Pass \cup Missing) \o SetToSeq(RT2) \o SetToSeq(RT6))
 =============================================================================
